@@ -390,7 +390,7 @@ theorem MirrorInv.step (o : List Addr) (s s' : Sys) (m : Msg) (rest subs : List 
   have restSenders : ∀ x ∈ rest, ∀ a b c d, x = .wasm a b c d → a ∉ o :=
     fun x hx' => inv.senders x (List.mem_cons_of_mem _ hx')
   cases handle_touch s s' m subs hx with
-  | none h hm hs =>
+  | none h hm hs _ =>
     have own : ownersOf s' = o := by rw [← inv.owners]; simp only [ownersOf, h.hub, h.disp, h.reward]
     refine ⟨w', by rw [h.bsei]; exact inv.wf, own, ?_, ?_⟩
     · rw [h.bsei, h.reward]
